@@ -43,6 +43,8 @@ def check_c07(case, stats=None):
             kind = c.fields.get("_judge")
             if kind == "deregistered":
                 leaving = set(x.fields.get("slots", [None])[0] for x in calls if x.op == "dereg")
+                # a module whose stop callback is still open is on its way out (deregistration or replacement in progress)
+                leaving |= set(b.slot for b in cbs if b.kind == "stop")
                 alive = [m for m, l in st.items() if l != "Z" and m not in leaving]
                 if alive:
                     bad("modules-survive-ctx-deregister", "m_ctx_deregister returned 0 but modules %s are still registered (states %s)" % (alive, {m: st[m] for m in alive}), r)
@@ -144,6 +146,8 @@ def check_c07(case, stats=None):
                             bad("idle-ctx-deregister-refused", "m_ctx_deregister on an idle context returned %d" % r.ret, r)
                     else:
                         exists = False
+                        for oc in calls:
+                            oc.fields["_nested_teardown"] = True
                         cnt("ctx_deregistered_with_%d_modules" % min(c.fields["_nlive"], 6))
                         c.fields["_judge"] = "deregistered"
                         pend.append(c)
@@ -163,6 +167,13 @@ def check_c07(case, stats=None):
                 finalized = True
                 cnt("finalize")
             elif c.op == "reg" and r.ret is not None:
+                if had and not c.fields.get("_nested_teardown") and not deny:
+                    # registering (also over a replaceable module) never releases the context
+                    cnt("registrations_judged")
+                    c.fields["_judge"], c.fields["_why"] = "must_exist", "m_mod_register does not release the context"
+                    pend.append(c)
+                if r.ret == 0 and c.fields.get("_nested_teardown"):
+                    bad("registered-into-released-context", "m_mod_register returned 0 although the context was deregistered (by a callback) during the call", r)
                 if not had and not exists:
                     cnt("register_without_context")
                     if r.ret >= 0:
@@ -186,6 +197,11 @@ def check_c07(case, stats=None):
                 nm = obs.get("nmods")
                 if c.fields.get("_deny_after") or any(x.op == "ctx_deregister" for x in calls):
                     continue
+                try:
+                    if int(nm) > 0:
+                        live = live or ["<%s unobserved>" % nm]      # modules the harness holds no observation reference on
+                except (TypeError, ValueError):
+                    pass
                 if not live and exists and obs.get("loop") == "0":
                     if persistent:
                         if obs.get("ctx") == "0":
